@@ -29,6 +29,8 @@ type c09LI struct {
 	I int `json:"I"`
 }
 type c09Par struct {
+	K4   int   `json:"k4"`
+	K6   int   `json:"k6"`
 	V4   c09LI `json:"v4"`
 	V6   c09LI `json:"v6"`
 	Prof c09LI `json:"prof"`
@@ -67,7 +69,7 @@ func TestVerifC09Counter(t *testing.T) {
 				if len(seq) > 0 {
 					// run the whole sequence on a fresh counter
 					c := NewRequestCounter(uint(L), time.Duration(I)*c09Tick)
-					out.Emit(c09Event{Ev: "Reset", Beh: beh, Par: &c09Par{V4: c09LI{L, I}, V6: c09LI{L, I}, Prof: c09LI{L, I}, B: 0, Dur: 1, Per: 1}})
+					out.Emit(c09Event{Ev: "Reset", Beh: beh, Par: &c09Par{K4: 24, K6: 48, V4: c09LI{L, I}, V6: c09LI{L, I}, Prof: c09LI{L, I}, B: 0, Dur: 1, Per: 1}})
 					for _, ts := range seq {
 						above := c.Add(c09Epoch.Add(time.Duration(ts) * c09Tick))
 						out.Emit(c09Event{Ev: "Q", T: ts, Bucket: "counter", Fam: "prof", Kind: "q", Drop: above,
@@ -91,7 +93,7 @@ func TestVerifC09Counter(t *testing.T) {
 			recMax = func(seq []int) {
 				if len(seq) == maxLen {
 					c := NewRequestCounter(uint(L), time.Duration(I)*c09Tick)
-					out.Emit(c09Event{Ev: "Reset", Beh: beh, Par: &c09Par{V4: c09LI{L, I}, V6: c09LI{L, I}, Prof: c09LI{L, I}, B: 0, Dur: 1, Per: 1}})
+					out.Emit(c09Event{Ev: "Reset", Beh: beh, Par: &c09Par{K4: 24, K6: 48, V4: c09LI{L, I}, V6: c09LI{L, I}, Prof: c09LI{L, I}, B: 0, Dur: 1, Per: 1}})
 					for _, ts := range seq {
 						above := c.Add(c09Epoch.Add(time.Duration(ts) * c09Tick))
 						out.Emit(c09Event{Ev: "Q", T: ts, Bucket: "counter", Fam: "prof", Kind: "q", Drop: above,
@@ -128,9 +130,9 @@ func (c *c09Clock) Now() time.Time { return c09Epoch.Add(time.Duration(c.ticks) 
 
 // clients of the abstract buckets s1..s3 (+ extras for the random driver)
 var c09Clients = map[string][]netip.Addr{
-	"s1": {netip.MustParseAddr("192.0.2.1"), netip.MustParseAddr("192.0.2.254")},
+	"s1": {netip.MustParseAddr("192.0.2.1"), netip.MustParseAddr("192.0.2.254"), netip.MustParseAddr("192.0.2.17")},
 	"s2": {netip.MustParseAddr("192.0.3.7"), netip.MustParseAddr("192.0.3.0")},
-	"s3": {netip.MustParseAddr("2001:db8:1:2::1"), netip.MustParseAddr("2001:db8:1:ffff:ffff::9")},
+	"s3": {netip.MustParseAddr("2001:db8:1:2::1"), netip.MustParseAddr("2001:db8:1:ffff:ffff::9"), netip.MustParseAddr("2001:db8:1:2ff::3")},
 	"s4": {netip.MustParseAddr("2001:db8:2::1")},
 }
 var c09Allowed = netip.MustParseAddr("198.51.100.77")
@@ -159,8 +161,8 @@ func c09RunBackoff(t *testing.T, out *vhOut, beh int, par c09Par, steps []c09Ste
 		Duration:             time.Duration(par.Dur) * c09Tick,
 		Count:                uint(par.B),
 		ResponseSizeEstimate: est * datasize.B,
-		IPv4Count:            uint(par.V4.L), IPv4Interval: time.Duration(par.V4.I) * c09Tick, IPv4SubnetKeyLen: 24,
-		IPv6Count: uint(par.V6.L), IPv6Interval: time.Duration(par.V6.I) * c09Tick, IPv6SubnetKeyLen: 48,
+		IPv4Count:            uint(par.V4.L), IPv4Interval: time.Duration(par.V4.I) * c09Tick, IPv4SubnetKeyLen: par.K4,
+		IPv6Count: uint(par.V6.L), IPv6Interval: time.Duration(par.V6.I) * c09Tick, IPv6SubnetKeyLen: par.K6,
 		RefuseANY: true,
 	})
 	out.Emit(c09Event{Ev: "Reset", Beh: beh, Par: &par})
@@ -195,9 +197,9 @@ func c09RunBackoff(t *testing.T, out *vhOut, beh int, par c09Par, steps []c09Ste
 				bo.CountResponses(ctx, resp, ip)
 			}
 		}
-		fam, keyLen := "v4", 24
+		fam, keyLen := "v4", par.K4
 		if ip.Is6() {
-			fam, keyLen = "v6", 48
+			fam, keyLen = "v6", par.K6
 		}
 		pfx, _ := ip.Prefix(keyLen)
 		out.Emit(c09Event{Ev: "Q", T: clk.ticks, Bucket: pfx.String(), Fam: fam, Kind: kind, Extra: extra, Drop: drop,
@@ -236,7 +238,7 @@ func TestVerifC09Backoff(t *testing.T) {
 		var behs [][]c09Step
 		vhReadJSON(t, p, &behs)
 		// parameters of RateLimit_sim.cfg
-		par := c09Par{V4: c09LI{3, 4}, V6: c09LI{3, 4}, Prof: c09LI{1, 1}, B: 2, Dur: 12, Per: 6}
+		par := c09Par{K4: 24, K6: 48, V4: c09LI{3, 4}, V6: c09LI{3, 4}, Prof: c09LI{1, 1}, B: 2, Dur: 12, Per: 6}
 		for _, b := range behs {
 			c09RunBackoff(t, out, beh, par, b, rng)
 			beh++
@@ -244,7 +246,10 @@ func TestVerifC09Backoff(t *testing.T) {
 	}
 	n := vhEnvInt("VERIF_NRANDOM", 100)
 	for i := 0; i < n; i++ {
-		par := c09Par{V4: c09LI{1 + rng.Intn(4), 2 + rng.Intn(8)}, V6: c09LI{1 + rng.Intn(3), 2 + rng.Intn(8)}, Prof: c09LI{1, 1},
+		// key lengths that are and are not multiples of eight: the clients below fall into
+		// the same or into different buckets depending on them
+		par := c09Par{K4: []int{24, 24, 20, 28, 32, 23}[rng.Intn(6)], K6: []int{48, 48, 52, 56, 64, 44}[rng.Intn(6)],
+			V4: c09LI{1 + rng.Intn(4), 2 + rng.Intn(8)}, V6: c09LI{1 + rng.Intn(3), 2 + rng.Intn(8)}, Prof: c09LI{1, 1},
 			B: 1 + rng.Intn(4), Dur: 3 + rng.Intn(30), Per: 2 + rng.Intn(30)}
 		c09RunBackoff(t, out, beh, par, c09Random(rng, par), rng)
 		beh++
